@@ -87,7 +87,7 @@ F16d(s0, e) ==
     IF e.k = "frame" /\ e.cause = "deliver" /\ e.red /\ e.sn \in DOMAIN s0.msg /\ s0.msg[e.sn].kind = "event"
        /\ s0.msg[e.sn].state = "" /\ s0.msg[e.sn].exec # ""
     THEN {s0.msg[e.sn].exec} ELSE {}
-F16Clauses == {"OutcomePreserved", "EventuallyTerminal", "DrainedD0", "DrainedD1", "DrainedD0:broker-unacked",
+F16Clauses == {"OutcomePreserved", "DrainedD0", "DrainedD1", "DrainedD0:broker-unacked",
                "DrainedD1:broker-unacked", "CarrierExists"}
 F16dClauses == {"NotifSeqOK", "HistoryNeverShrinks", "HistoryWellFormed", "HistAgreesWithRecord", "NotifiedOncePerChange"}
 
